@@ -7,6 +7,12 @@ props = [json.loads(l) for l in (V / "properties.jsonl").read_text().splitlines(
 ids = [p["id"] for p in props]
 
 CHECKS = {
+ "C02": dict(
+   level="model_checking",
+   text="Http has two parts: the declared transformation as functions over header lists (hop-by-hop and connection-listed headers, configured request / response headers, Host rewrite, X-Forwarded-For extension; RequestPreserved, NothingInjected, SetApplied, XFFOK, HostOK, ResponsePreserved) and a keep-alive user connection as a state machine (requests taken one at a time, answered in order by the backend's answer or by the error mapping unreachable -> 404 page / no headers in time -> 504) for which TLC checks InOrder, RightKind, ForwardedAtMostOnce and, under fairness, AllAnswered, plus a deviation (answers written as they become ready) that must violate InOrder. A real frps with 7 proxies (plain, rewriting, unreachable, four client-side reverse proxy plugins) is driven with hand-written requests in keep-alive and pipelined sequences; the user's and the backend's views of each request and response are logged and TLC evaluates the transformation predicates on every pair and replays every connection on the connection machine (Trace_Http); protocol upgrade and CONNECT are checked as byte-transparent tunnels, error answers with their timing while other requests proceed.",
+   note="Trusted: TLC, the driver's raw request writer / response reader and logging backend. HTTP/1.1 on the user side (h2c routing is C06); sampled requests (about 300 quick, 2000 thorough).",
+   technique="TLA+ spec Http model-checked with TLC (connection machine + deviation) + validation of user / backend views of real requests through frps, frpc and the client plugins (Trace_Http)",
+   design="4 (C02), 3.5"),
  "C05": dict(
    level="model_checking",
    text="Wire has three parts: (1) every class of bytes (payload, login exchange, work-connection handshakes, control messages, token, secret key, http password) travels through a stack of layers (per-proxy AES, token-keyed control cipher, digest, TLS) that depends on the configuration, and is visible iff no layer hides it; TLC checks TLSHidesEverything, ProxyEncHidesPayload, SecretsNeverClear over the whole lattice; (2) the server accept path (first-byte sniff, TLS handshake with optional client certificate verification, force implied by a trusted CA) as a state machine explored over every policy x peer with ForcedMeansTLS and CAMeansCert; (3) the client's identity rule. Two deviations (a CA that no longer forces TLS, a transport that silently skips TLS) must be caught. Real frps / frpc pairs with a recording relay on the path, scripted peers with every first byte and certificate class against the four policies, and a real frpc against servers of every identity produce observations that TLC judges against the same definitions (Trace_Wire).",
